@@ -230,83 +230,83 @@ end tactics
 
 variable {tbl : RuleTable} {n₁ n₂ : Nat}
 
-theorem printLoop_step (ih : AllSim tbl n₁ n₂) (a₁ a₂ : List Expr) (ha : erase a₁ = erase a₂) :
+theorem printLoop_step_param (ih : AllSim tbl n₁ n₂) (a₁ a₂ : List Expr) (ha : erase a₁ = erase a₂) :
     PSim (printLoop tbl (n₁ + 1) a₁) (printLoop tbl (n₂ + 1) a₂) := by
   unfold printLoop
   repeat' psim_step
   all_goals psim_side
 
-theorem printStatement_step (ih : AllSim tbl n₁ n₂) :
+theorem printStatement_step_param (ih : AllSim tbl n₁ n₂) :
     PSim (printStatement tbl (n₁ + 1)) (printStatement tbl (n₂ + 1)) := by
   unfold printStatement
   repeat' psim_step
   all_goals psim_side
 
-theorem loopBody_step (ih : AllSim tbl n₁ n₂) :
+theorem loopBody_step_param (ih : AllSim tbl n₁ n₂) :
     PSim (loopBody tbl (n₁ + 1)) (loopBody tbl (n₂ + 1)) := by
   unfold loopBody
   repeat' psim_step
   all_goals psim_side
 
-theorem block_step (ih : AllSim tbl n₁ n₂) :
+theorem block_step_param (ih : AllSim tbl n₁ n₂) :
     PSim (block tbl (n₁ + 1)) (block tbl (n₂ + 1)) := by
   unfold block
   repeat' psim_step
   all_goals psim_side
 
-theorem blockLoop_step (ih : AllSim tbl n₁ n₂) (a₁ a₂ : List Stmt) (ha : erase a₁ = erase a₂) :
+theorem blockLoop_step_param (ih : AllSim tbl n₁ n₂) (a₁ a₂ : List Stmt) (ha : erase a₁ = erase a₂) :
     PSim (blockLoop tbl (n₁ + 1) a₁) (blockLoop tbl (n₂ + 1) a₂) := by
   unfold blockLoop
   repeat' psim_step
   all_goals psim_side
 
-theorem expressionWithPrec_step (ih : AllSim tbl n₁ n₂) (prec : Nat) :
+theorem expressionWithPrec_step_param (ih : AllSim tbl n₁ n₂) (prec : Nat) :
     PSim (expressionWithPrec tbl (n₁ + 1) prec) (expressionWithPrec tbl (n₂ + 1) prec) := by
   unfold expressionWithPrec
   repeat' psim_step
   all_goals psim_side
 
-theorem infixLoop_step (ih : AllSim tbl n₁ n₂) (prec : Nat) (l₁ l₂ : Expr) (hl : erase l₁ = erase l₂) :
+theorem infixLoop_step_param (ih : AllSim tbl n₁ n₂) (prec : Nat) (l₁ l₂ : Expr) (hl : erase l₁ = erase l₂) :
     PSim (infixLoop tbl (n₁ + 1) prec l₁) (infixLoop tbl (n₂ + 1) prec l₂) := by
   unfold infixLoop
   repeat' psim_step
   all_goals psim_side
 
-theorem exprList_step (ih : AllSim tbl n₁ n₂) (endTag : Tag) (a₁ a₂ : List Expr)
+theorem exprList_step_param (ih : AllSim tbl n₁ n₂) (endTag : Tag) (a₁ a₂ : List Expr)
     (ha : erase a₁ = erase a₂) :
     PSim (exprList tbl (n₁ + 1) endTag a₁) (exprList tbl (n₂ + 1) endTag a₂) := by
   unfold exprList
   repeat' psim_step
   all_goals psim_side
 
-theorem objectLoop_step (ih : AllSim tbl n₁ n₂) (a₁ a₂ : List (Bytes × Expr))
+theorem objectLoop_step_param (ih : AllSim tbl n₁ n₂) (a₁ a₂ : List (Bytes × Expr))
     (ha : erase a₁ = erase a₂) :
     PSim (objectLoop tbl (n₁ + 1) a₁) (objectLoop tbl (n₂ + 1) a₂) := by
   unfold objectLoop
   repeat' psim_step
   all_goals psim_side
 
-theorem matchCases_step (ih : AllSim tbl n₁ n₂) (a₁ a₂ : List MatchCase)
+theorem matchCases_step_param (ih : AllSim tbl n₁ n₂) (a₁ a₂ : List MatchCase)
     (ha : erase a₁ = erase a₂) :
     PSim (matchCases tbl (n₁ + 1) a₁) (matchCases tbl (n₂ + 1) a₂) := by
   unfold matchCases
   repeat' psim_step
   all_goals psim_side
 
-theorem matchPats_step (ih : AllSim tbl n₁ n₂) (a₁ a₂ : List Expr)
+theorem matchPats_step_param (ih : AllSim tbl n₁ n₂) (a₁ a₂ : List Expr)
     (ha : erase a₁ = erase a₂) :
     PSim (matchPats tbl (n₁ + 1) a₁) (matchPats tbl (n₂ + 1) a₂) := by
   unfold matchPats
   repeat' psim_step
   all_goals psim_side
 
-theorem prefixFn_step (ih : AllSim tbl n₁ n₂) (pk : PrefixKind) :
+theorem prefixFn_step_param (ih : AllSim tbl n₁ n₂) (pk : PrefixKind) :
     PSim (prefixFn tbl (n₁ + 1) pk) (prefixFn tbl (n₂ + 1) pk) := by
   unfold prefixFn
   repeat' psim_step
   all_goals psim_side
 
-theorem infixFn_step (ih : AllSim tbl n₁ n₂) (ik : InfixKind) (l₁ l₂ : Expr)
+theorem infixFn_step_param (ih : AllSim tbl n₁ n₂) (ik : InfixKind) (l₁ l₂ : Expr)
     (hl : erase l₁ = erase l₂) :
     PSim (infixFn tbl (n₁ + 1) ik l₁) (infixFn tbl (n₂ + 1) ik l₂) := by
   unfold infixFn
@@ -315,7 +315,7 @@ theorem infixFn_step (ih : AllSim tbl n₁ n₂) (ik : InfixKind) (l₁ l₂ : E
   all_goals psim_side
   exact rewriteCompound_erase hl ‹_› hprev
 
-theorem statement_step (ih : AllSim tbl n₁ n₂) :
+theorem statement_step_param (ih : AllSim tbl n₁ n₂) :
     PSim (statement tbl (n₁ + 1)) (statement tbl (n₂ + 1)) := by
   unfold statement
   psim_step
@@ -379,20 +379,20 @@ theorem allSim (tbl : RuleTable) : ∀ n₁ n₂, n₁ ≤ n₂ → AllSim tbl n
     | succ n₂ =>
       have ih := ih n₂ (by omega)
       exact {
-        statement := statement_step ih
-        loopBody := loopBody_step ih
-        block := block_step ih
-        blockLoop := blockLoop_step ih
-        printStatement := printStatement_step ih
-        printLoop := printLoop_step ih
-        expressionWithPrec := expressionWithPrec_step ih
-        infixLoop := infixLoop_step ih
-        prefixFn := prefixFn_step ih
-        exprList := exprList_step ih
-        objectLoop := objectLoop_step ih
-        matchCases := matchCases_step ih
-        matchPats := matchPats_step ih
-        infixFn := infixFn_step ih }
+        statement := statement_step_param ih
+        loopBody := loopBody_step_param ih
+        block := block_step_param ih
+        blockLoop := blockLoop_step_param ih
+        printStatement := printStatement_step_param ih
+        printLoop := printLoop_step_param ih
+        expressionWithPrec := expressionWithPrec_step_param ih
+        infixLoop := infixLoop_step_param ih
+        prefixFn := prefixFn_step_param ih
+        exprList := exprList_step_param ih
+        objectLoop := objectLoop_step_param ih
+        matchCases := matchCases_step_param ih
+        matchPats := matchPats_step_param ih
+        infixFn := infixFn_step_param ih }
 
 /-! ### the top level -/
 
